@@ -41,8 +41,10 @@ AppMsg(m) == CASE m = "ccr" -> [msg |-> [app |-> 4, code |-> 272, req |-> TRUE],
                [] m = "ccr_e" -> [msg |-> [app |-> 4, code |-> 272, req |-> TRUE], short |-> "CC"]
                [] m = "raa_e" -> [msg |-> [app |-> 0, code |-> 258, req |-> FALSE], short |-> "RA"]
 IsApp(m) == m \in {"ccr", "cca", "ulr", "rar", "ccr_e", "raa_e"}
-CerKinds == {"cer_ok", "cer_bad", "cer_noid", "cer_sec", "cer_ok_wfail"}
-FailCode(m) == CASE m = "cer_bad" -> 5010 [] m = "cer_noid" -> 5012 [] m = "cer_sec" -> 5017
+CerKinds == {"cer_ok", "cer_bad", "cer_noid", "cer_sec", "cer_ok_wfail", "cer_sec_ccr"}
+\* cer_sec_ccr: a CER that is refused (in-band security) with an application request right behind it in the
+\* same fragment: the request is already buffered when the connection is closed and must not reach a handler
+FailCode(m) == CASE m = "cer_bad" -> 5010 [] m = "cer_noid" -> 5012 [] m \in {"cer_sec", "cer_sec_ccr"} -> 5017
 
 \* wbroken: reserved for a transport whose write side stays broken (never set since messages are
 \* handed to the transport directly: a failed write no longer poisons later writes)
